@@ -118,7 +118,7 @@ Arrive(ev) ==
       \* arrival is concurrent with that selection -> nothing is demanded
       entering == \E t \in Sess : cmd[t] # <<>> /\ cmd[t][1] \in {"select", "examine"}
                                    /\ pendsel[t][1] = m
-  IN /\ owed' = IF RwSelOf(m) = {} /\ ~leaving /\ ~entering
+  IN /\ owed' = IF RwSelOf(m) = {} /\ ~leaving /\ ~entering /\ ~ev.claimed
                 THEN owed \cup {<<m, u>> : u \in us} ELSE owed
      /\ UNCHANGED <<cv, cr, mb, rw, sid, nextid, rcnt, shown, claim, cmd, pendsel, bad>>
 
